@@ -24,13 +24,19 @@
 using namespace votca;
 using namespace votca::xtp;
 
-static void tree_case(const std::vector<double> &rates, bool exact, int decay = -1) {
+static void tree_case(const std::vector<double> &rates, bool exact, int decay = -1, int rebuild = -1) {
   // through GNode, as the KMC code does
   Segment seg("s", 0);
   GNode node(seg, QMStateType::Electron, true);
   GNode other(seg, QMStateType::Electron, true);
   // one of the events may be a decay event (kmclifetime mode): it takes part in the tree and in the escape rate like every other
-  for (size_t i = 0; i < rates.size(); i++) { if ((int)i == decay) node.AddDecayEvent(rates[i]); else node.AddEvent(&other, Eigen::Vector3d::Zero(), rates[i]); }
+  // rebuild = k: the tree is first built from the first k events, then the remaining events are added and escape rate and tree are
+  // built again (what kmclifetime does when the decay events are read after the graph was loaded); the property is about the
+  // rates leaving the site at the time of the lookup
+  for (size_t i = 0; i < rates.size(); i++) {
+    if ((int)i == rebuild && i > 0) { node.InitEscapeRate(); node.MakeHuffTree(); }
+    if ((int)i == decay) node.AddDecayEvent(rates[i]); else node.AddEvent(&other, Eigen::Vector3d::Zero(), rates[i]);
+  }
   node.InitEscapeRate();
   node.MakeHuffTree();
   auto &ht = node.hTree;
@@ -38,6 +44,7 @@ static void tree_case(const std::vector<double> &rates, bool exact, int decay = 
   std::ostringstream o;
   o << "C14 tree " << (exact ? 1 : 0);
   if (decay >= 0) o << "d" << decay;
+  if (rebuild > 0) o << "r" << rebuild;
   o << " " << rates.size();
   for (double r : rates) o << " " << dexact(r);
   o << " " << ht.htree.size();
@@ -132,7 +139,8 @@ int main(int argc, char **argv) {
       size_t n = (size_t)atol(t[3].c_str());
       std::vector<double> rates;
       for (size_t i = 0; i < n && 5 + 2 * i < t.size(); i++) rates.push_back(dparse(t[4 + 2 * i], t[5 + 2 * i]));
-      tree_case(rates, t[2][0] == '1', t[2].size() > 2 && t[2][1] == 'd' ? atoi(t[2].c_str() + 2) : -1);
+      size_t rp = t[2].find('r');
+      tree_case(rates, t[2][0] == '1', t[2].size() > 2 && t[2][1] == 'd' ? atoi(t[2].c_str() + 2) : -1, rp != std::string::npos ? atoi(t[2].c_str() + rp + 1) : -1);
     }
     return 0;
   }
@@ -168,7 +176,8 @@ int main(int argc, char **argv) {
       double sc = std::ldexp(1.0, (int)r.range(-30, 30));
       std::vector<double> rates;
       for (long x : a) rates.push_back((double)x * sc);
-      tree_case(rates, true, r.coin(1, 4) ? (int)r.below(rates.size()) : -1);
+      int dec = r.coin(1, 4) ? (int)r.below(rates.size()) : -1;
+      tree_case(rates, true, dec, rates.size() > 1 && r.coin(1, 3) ? 1 + (int)r.below(rates.size() - 1) : -1);
     } else if (k < 6) {
       // 12 decades, equal rates, odd/even counts
       int n = 1 + (int)r.below(r.coin(1, 4) ? 100 : 9);
@@ -180,7 +189,8 @@ int main(int argc, char **argv) {
         else if (kind == 1) rates.push_back(base * std::pow(10.0, -(double)r.below(13)));
         else rates.push_back(base * (0.001 + r.unit()));
       }
-      tree_case(rates, false, r.coin(1, 4) ? (int)r.below(rates.size()) : -1);
+      int dec = r.coin(1, 4) ? (int)r.below(rates.size()) : -1;
+      tree_case(rates, false, dec, rates.size() > 1 && r.coin(1, 3) ? 1 + (int)r.below(rates.size() - 1) : -1);
     } else marcus_case(r, r.coin(2, 3));
   }
   return 0;
